@@ -110,6 +110,15 @@ impl Prop for C04 {
                 }
             }
         }
+        // written unit powers around the 16-bit boundaries (the value stays small): products and
+        // quotients with a small power and with the inverse power
+        for p in [32766i64, 32767, 32768, 32769, 40000, 65535, 65536, 65537, 70000] {
+            for (u, inv, small) in [(format!("m^{p}"), format!("m^-{p}"), "m"), (format!("s^-{p}"), format!("s^{p}"), "s"), (format!("A^{p}"), format!("A^-{p}"), "A")] {
+                emit("power-wide", &bin(qty("2", &u), Op::Mul, qty("3", small)), sink);
+                emit("power-wide", &bin(qty("2", &u), Op::Div, qty("4", small)), sink);
+                emit("power-wide", &bin(qty("2", &u), Op::Mul, qty("3", &inv)), sink);
+            }
+        }
         // zero-valued quantities (written and computed): the unit is raised / multiplied all the same,
         // a negative power or a division by them is an error
         for w in ["m", "s", "kg", "N", "ft", "km", "btu"] {
